@@ -21,13 +21,16 @@ import (
 	"os/exec"
 	"os/signal"
 	"path/filepath"
+	"runtime"
 	"sort"
 	"strings"
 	"sync"
 	"syscall"
 	"testing"
 	"time"
+	"unsafe"
 
+	slog "github.com/refraction-networking/conjure/pkg/station/log"
 	pb "github.com/refraction-networking/conjure/proto"
 	"google.golang.org/protobuf/proto"
 )
@@ -157,9 +160,19 @@ type c20Ent struct {
 	Dig  c20Dig `json:"dig"`
 }
 
+var c20Quiet bool
+var c20Held [][]byte
+
+// in quiet mode nothing is written before the script ends, so that the first write(2) of the
+// process is the store's own (strace can then kill the process exactly there)
 func c20Emit(v interface{}) {
 	b, _ := json.Marshal(v)
-	os.Stdout.Write(append(append([]byte("\nC20R "), b...), '\n'))
+	ln := append(append([]byte("\nC20R "), b...), '\n')
+	if c20Quiet {
+		c20Held = append(c20Held, ln)
+		return
+	}
+	os.Stdout.Write(ln)
 }
 
 func c20List(dir string) ([]c20Ent, error) {
@@ -203,6 +216,15 @@ func TestVerifC20Child(t *testing.T) {
 	}
 	// a write beyond RLIMIT_FSIZE raises SIGXFSZ; keep the process alive so that the store sees EFBIG
 	signal.Ignore(syscall.SIGXFSZ)
+	if os.Getenv("VERIF_C20_QUIET") == "1" {
+		c20Quiet = true
+		slog.SetOutput(io.Discard)
+		defer func() {
+			for _, ln := range c20Held {
+				os.Stdout.Write(ln)
+			}
+		}()
+	}
 	mark := func(i int, what string) { _, _ = os.Stat(fmt.Sprintf("/c20-marker/%d/%s", i, what)) }
 	for i, op := range script {
 		r := c20Res{I: i, Op: op.Op}
@@ -248,6 +270,9 @@ func TestVerifC20Child(t *testing.T) {
 			sh := proto.Clone(assetsInstance.config).(*pb.ClientConf)
 			sh.PhantomSubnetsList = sn
 			store(c20MarshalDig(sh), func() error { return Assets().SetPhantomSubnets(sn) })
+		case "digest":
+			d := c20MarshalDig(c20Build(*op.Cfg))
+			r.Want = &d
 		case "rmdir":
 			err = os.RemoveAll(op.Dir)
 		case "mkdir":
@@ -265,6 +290,29 @@ func TestVerifC20Child(t *testing.T) {
 				lim.Cur = ^uint64(0)
 			}
 			err = syscall.Setrlimit(syscall.RLIMIT_FSIZE, &lim)
+		case "arm_close":
+			// strace injects an error into every close(2) of a thread from its 400th on: stay on this
+			// thread and burn close(-1) calls until the injection has begun
+			runtime.LockOSThread()
+			err = fmt.Errorf("close injection never began")
+			for n := 0; n < 2000; n++ {
+				if e := syscall.Close(-1); e == syscall.EIO {
+					err = nil
+					break
+				}
+			}
+		case "xfsz_default":
+			// restore the kernel's default action for SIGXFSZ (terminate): a write beyond RLIMIT_FSIZE then
+			// kills the process inside the store's write loop, after exactly the permitted bytes have landed
+			type ksigaction struct {
+				handler, flags, restorer uintptr
+				mask                     uint64
+			}
+			act := ksigaction{}
+			_, _, e := syscall.RawSyscall6(syscall.SYS_RT_SIGACTION, uintptr(syscall.SIGXFSZ), uintptr(unsafe.Pointer(&act)), 0, 8, 0, 0)
+			if e != 0 {
+				err = e
+			}
 		case "mount_tmpfs":
 			err = syscall.Mount("tmpfs", op.Dir, "tmpfs", 0, "size="+op.Size)
 		case "remount_ro":
@@ -273,7 +321,15 @@ func TestVerifC20Child(t *testing.T) {
 			// consume free space of the file system holding Dir, leaving about K bytes
 			err = c20Fill(op.Dir, op.K)
 		case "ls":
+			// the observer reads with full privileges, whatever the store ran as
+			eu := syscall.Geteuid()
+			if eu != 0 {
+				_ = syscall.Seteuid(0)
+			}
 			r.Ls, err = c20List(op.Dir)
+			if eu != 0 {
+				_ = syscall.Seteuid(eu)
+			}
 			r.Dir = op.Dir
 		case "loop":
 			c20Loop(op)
@@ -347,6 +403,8 @@ type c20Case struct {
 	Intervene *c20Intervene `json:"intervene,omitempty"`
 	Kill      *c20Kill      `json:"kill,omitempty"`
 	Seed      int64         `json:"seed"`
+	Pre       []c20Op       `json:"pre,omitempty"` // run first, in a child of its own, without strace
+	Quiet     bool          `json:"quiet"`
 }
 
 type c20KillTrial struct {
@@ -374,6 +432,8 @@ type c20Out struct {
 	Stderr  string         `json:"stderr"`
 	Kills   []c20KillTrial `json:"kills,omitempty"`
 	Interv  string         `json:"interv,omitempty"`
+	PreRes  []c20Res       `json:"pre_res,omitempty"`
+	PostLs  [][]c20Ent     `json:"post_ls"` // listing of every directory by the parent after the child ended
 	Elapsed float64        `json:"elapsed"`
 }
 
@@ -411,6 +471,9 @@ func c20ChildCmd(specPath string, c *c20Case, tracePath string) *exec.Cmd {
 		cmd = exec.Command(args[0], args[1:]...)
 	}
 	cmd.Env = append(os.Environ(), "VERIF_C20_CHILD="+specPath)
+	if c.Quiet {
+		cmd.Env = append(cmd.Env, "VERIF_C20_QUIET=1")
+	}
 	if c.Unshare {
 		cmd.SysProcAttr = &syscall.SysProcAttr{Unshareflags: syscall.CLONE_NEWNS}
 	}
@@ -430,12 +493,23 @@ func c20RunCase(t *testing.T, c *c20Case, base string) c20Out {
 		out.Elapsed = time.Since(t0).Seconds()
 		return out
 	}
+	specPath := filepath.Join(base, "spec.json")
+	if len(c.Pre) > 0 {
+		pre := make([]c20Op, len(c.Pre))
+		for i, op := range c.Pre {
+			op.Dir = c20Subst(op.Dir, out.Dirs)
+			pre[i] = op
+		}
+		pb_, _ := json.Marshal(pre)
+		_ = os.WriteFile(specPath, pb_, 0o644)
+		ob, _ := c20ChildCmd(specPath, &c20Case{}, "").Output()
+		out.PreRes = c20ParseRes(ob)
+	}
 	script := make([]c20Op, len(c.Script))
 	for i, op := range c.Script {
 		op.Dir = c20Subst(op.Dir, out.Dirs)
 		script[i] = op
 	}
-	specPath := filepath.Join(base, "spec.json")
 	sb, _ := json.Marshal(script)
 	_ = os.WriteFile(specPath, sb, 0o644)
 	tracePath := filepath.Join(base, "trace.txt")
@@ -461,7 +535,7 @@ func c20RunCase(t *testing.T, c *c20Case, base string) c20Out {
 				}
 				ents, _ := os.ReadDir(iv.Dir)
 				for _, e := range ents {
-					if strings.HasSuffix(e.Name(), ".tmp") {
+					if e.Name() != "ClientConf" {
 						fi, err := e.Info()
 						if err == nil && (iv.WaitTmpSize < 0 || fi.Size() == iv.WaitTmpSize) {
 							// the child's rename is delayed by strace: let write and close finish first
@@ -524,6 +598,10 @@ func c20RunCase(t *testing.T, c *c20Case, base string) c20Out {
 			}
 			f.Close()
 		}
+	}
+	for _, d := range out.Dirs {
+		l, _ := c20List(d)
+		out.PostLs = append(out.PostLs, l)
 	}
 	out.Elapsed = time.Since(t0).Seconds()
 	return out
